@@ -1550,11 +1550,11 @@ class SymbolicDim(_protocols.SymbolicDimProtocol, _display.PrettyPrintable):
         if self._expr is None:
             return SymbolicDim(None)
         if isinstance(other, int):
-            return SymbolicDim(sympy.sympify(self._expr // other))
+            return SymbolicDim(sympy.floor(self._expr / sympy.Integer(other)))
         if isinstance(other, SymbolicDim):
             if other._value is None:
                 return SymbolicDim(None)
-            return SymbolicDim(sympy.sympify(self._expr // other._expr))
+            return SymbolicDim(sympy.floor(self._expr / other._expr))
         return NotImplemented
 
     def __truediv__(self, other: int | SymbolicDim) -> SymbolicDim:
